@@ -339,3 +339,12 @@ _upd('C06',
 _upd('C05',
      CLAIMED['C05'][1] + ' Total correctness: the transformation returns on every well-formed circuit (its recursion depth never exceeds the number of gates).',
      'pysat is absent in this sandbox: a shim (DPLL / z3 -dimacs, models re-checked) stands in for the solver; the solver is a parameter of the theorem. CPython\'s recursion limit is not modelled.')
+
+_upd('C08',
+     'Through the program logic of C07 (frame theorem for every mode): ALL six multiplication modes — add_mul (DEFAULT), add_mul_alter, '
+     'add_mul_dadda, both Karatsuba variants (induction over the recursion for any base multiplier meeting a spec), add_mul_pow2_m1, '
+     'add_mul_wallace (placeholder matrices as numbers, per-round conservation modulo 2^(n+m), gap logic of the final adder; every drawn '
+     'label differs from the placeholder string) — and both squarers return exactly a*b resp. x^2 for all widths, both endiannesses and '
+     'operands that are arbitrary host gates; result widths proved for Dadda, Karatsuba, 2^k-1 and the squarers. All modes are modelled '
+     'one-to-one and compared gate for gate (uuid pinned); the search checks values and widths on the real generators.',
+     'Result widths of DEFAULT and Wallace are checked on the real generators, not proved (partial).')
